@@ -1,0 +1,15 @@
+//! Verification hooks for C17 (feature `verif`): public view of the crate-private
+//! `object_forwarding` functions.  No behaviour of their own.
+
+pub use crate::util::object_forwarding::{
+    attempt_to_forward, clear_forwarding_bits, forward_object, get_forwarding_status,
+    is_forwarded, is_forwarded_or_being_forwarded, read_forwarding_pointer,
+    spin_and_get_forwarded_object, state_is_being_forwarded,
+    state_is_forwarded_or_being_forwarded, write_forwarding_pointer,
+};
+
+/// `Some(shift)` if the binding's forwarding bits live inside the forwarding-pointer word (both
+/// in the header), so that `forward_object` writes pointer and state with one store.
+pub fn forwarding_bits_offset_in_forwarding_pointer<VM: crate::vm::VMBinding>() -> Option<isize> {
+    crate::util::object_forwarding::forwarding_bits_offset_in_forwarding_pointer::<VM>()
+}
